@@ -7,6 +7,7 @@ toolchain go1.24.0
 require (
 	github.com/dunglas/mercure v0.0.0
 	github.com/yosida95/uritemplate/v3 v3.0.2
+	go.uber.org/zap v1.27.0
 )
 
 require (
@@ -42,7 +43,6 @@ require (
 	github.com/unrolled/secure v1.17.0 // indirect
 	go.etcd.io/bbolt v1.4.0 // indirect
 	go.uber.org/multierr v1.11.0 // indirect
-	go.uber.org/zap v1.27.0 // indirect
 	golang.org/x/crypto v0.33.0 // indirect
 	golang.org/x/net v0.35.0 // indirect
 	golang.org/x/sys v0.30.0 // indirect
